@@ -102,7 +102,7 @@ class Sentences:
         if isinstance(e, Opt):
             return self.expr(e.body, sk, depth) if (depth > 0 and self.size <= self.LIMIT and r.random() < 0.5) else ""
         if isinstance(e, Clo):
-            n = r.choice([0, 1, 1, 2, 3]) if (depth > 0 and self.size <= self.LIMIT) else 0
+            n = r.choice([0, 1, 1, 2, 3, 4]) if (depth > 0 and self.size <= self.LIMIT) else 0
             if e.plus:
                 n = max(1, n)
             return "".join(self.expr(e.body, sk, depth - 1) for _ in range(n))
@@ -274,6 +274,19 @@ def inputs_for(g: Grammar, rule: str, rnd: random.Random, n_sent=10, n_total=40,
         for s in sents[:4]:
             for i in range(len(s) + 1):
                 add(s[:i] + rnd.choice(WS5 + NEAR_WS) + s[i:])
+        # the characters a grammar-defined Whitespace rule mentions (skippable ones, comment starters, and characters it
+        # forbids through a lookahead - where the skip itself fails) at every position of two sentences
+        wsr = g.rule("Whitespace")
+        if wsr is not None and wsr.kind == "rule":
+            own = sorted({c for e in subexprs(wsr.body) if isinstance(e, Lit) for c in e.s} | {c for e in subexprs(wsr.body) if isinstance(e, Rng) for c in (e.a, e.b)})
+            if own:
+                for s in sents[:2]:
+                    for i in range(len(s) + 1):
+                        x = s[:i] + rnd.choice(own) + s[i:]
+                        if x not in seen and len(x.encode("utf-8")) <= maxbytes + 8:
+                            seen.add(x)
+                            out.append(x)
+                n_total += 16
         # long gaps (8-24 characters: beyond any word-sized chunk), pure whitespace and with one near-whitespace character
         # at every position of the run
         for s in sents[:3]:
